@@ -62,9 +62,9 @@ def single_assignments(body):
     return {k: v for k, v in val.items() if count.get(k) == 1}
 
 
-def inline(expr, body, depth=4):
-    """substitute single-assignment temporaries of `body` into expr"""
-    loc = single_assignments(body)
+def inline(expr, body, depth=4, keep=()):
+    """substitute single-assignment temporaries of `body` into expr (names in `keep` are left alone)"""
+    loc = {k: v for k, v in single_assignments(body).items() if k not in keep}
     for _ in range(depth):
         used = {n.id for n in ast.walk(expr) if isinstance(n, ast.Name)} & set(loc)
         if not used:
